@@ -2,6 +2,7 @@ import ClvmModel.Proto.Varint
 import ClvmModel.Proto.Alloc
 import ClvmModel.Proto.Classic
 import ClvmModel.Proto.Run
+import ClvmModel.Proto.Costs
 import ClvmModel.Proto.Ref
 import ClvmModel.Interp.CryptoOps
 import ClvmModel.Proto.Backref
@@ -43,6 +44,8 @@ def handleLine (line : String) : String :=
       | "RUN" => handleRunWith {} Clvm.Interp.cryptoExtra args
       | "OP" => handleOpWith {} Clvm.Interp.cryptoExtra args
       | "UNK" => handleUnknown args
+      | "OPZ" => handleOpz {} Clvm.Interp.cryptoExtra args
+      | "UNKZ" => handleUnkz args
       | "REF" => handleRef args
       | "REFPY" => handleRefPy args
       | "PYGLUE" | "PYSER" | "PYPFX" | "PYDE" | "PYINT" | "PYCURRY" | "PYUNCURRY" => handlePy kind args
